@@ -20,8 +20,10 @@ import (
 //       calls that returned nil, in order (binary: independent validator refBinValid + read back; text: read back),
 //       including when Finish was called earlier in the program (a second batch);
 //   (e) the same program run on a second, fresh Writer emits the same bytes.
-// Outside: a pending annotation or field name at the moment of an End/Finish call (the API does not say whether it
-// is dropped or carried over; such programs are assumed away), nil pointer arguments, programs longer than L.
+// A field name that is pending when its struct is closed ends with that struct: it never names a value of another
+// container (param prefix=1 starts the symbolic calls inside {a:{ to reach this with three calls).
+// Outside: a pending annotation at the moment of an End/Finish call (the API does not say whether it is dropped or
+// carried over; such programs are assumed away), nil pointer arguments, programs longer than L.
 
 type vSink struct {
 	buf    []byte
@@ -212,7 +214,11 @@ func H_C12_prog() {
 	config := vparam("config", 2)
 	L := vparam("L", 2)
 	batches := vparam("batches", 0) // 1: the program is  op.. Finish op.. (a Finish is forced in the middle)
-	prog := make([]vWCall, 0, L+1)
+	prog := make([]vWCall, 0, L+4)
+	if vparam("prefix", 0) == 1 {
+		// the symbolic calls start inside a struct that is itself a field of a struct: {a:{ ...
+		prog = append(prog, vWCall{op: vOpBeginStruct}, vWCall{op: vOpField}, vWCall{op: vOpBeginStruct})
+	}
 	for i := 0; i < L; i++ {
 		var c vWCall
 		if (batches == 1 && i == L/2) || (batches == 2 && i == vparam("finishAt", 1)) {
@@ -261,8 +267,9 @@ func H_C12_prog() {
 			illegal = !m.inStruct()
 		case vOpEndList, vOpEndSexp, vOpEndStruct:
 			illegal = len(m.stack) == 0 || m.stack[len(m.stack)-1] != vContainerOf(c.op)
-			// pending annotation / field name at End: outside the claim
-			vassume(illegal || (m.nann == 0 && !m.haveField))
+			// a pending annotation at End is outside the claim (the API does not say whether it is dropped or carried
+			// over); a pending field name belongs to the struct it was set in and ends with it
+			vassume(illegal || m.nann == 0)
 		case vOpFinish:
 			illegal = len(m.stack) != 0
 			vassume(illegal || (m.nann == 0 && !m.haveField))
@@ -305,6 +312,7 @@ func H_C12_prog() {
 			m.stack = append(m.stack, vContainerOf(c.op))
 		case vOpEndList, vOpEndSexp, vOpEndStruct:
 			m.stack = m.stack[:len(m.stack)-1]
+			m.haveField = false
 		}
 	}
 	ferr := w.Finish()
